@@ -1,3 +1,4 @@
+#include <algorithm>
 #include <cstring>
 
 #include <asam_cmp/decoder.h>
@@ -100,8 +101,11 @@ Decoder::SegmentedPacket::SegmentedPacket(
     , curMessageType(messageType)
     , curSegment(sequenceCounter)
 {
-    payload.resize(size);
-    memcpy(payload.data(), data, size);
+    // Only the declared payload belongs to the message, not the bytes following it in the frame
+    const auto header = reinterpret_cast<const MessageHeader*>(data);
+    const size_t segmentSize = std::min(size, sizeof(MessageHeader) + header->getPayloadLength());
+    payload.resize(segmentSize);
+    memcpy(payload.data(), data, segmentSize);
 }
 
 bool Decoder::SegmentedPacket::addSegment(
